@@ -7,7 +7,9 @@ try:
 except ImportError:
     C03_kernel = None
 
-LEAN_MODULES = C03_ops.LEAN_MODULES + ['C14'] + emitlock_part.LEAN_MODULES + (C03_kernel.LEAN_MODULES if C03_kernel else [])
+# C11: the Share / connectable transition system and its release theorems (the shared source is held exactly while a
+# subscriber or the connection needs it) — C03 reads the release of the shared source from the same sequences
+LEAN_MODULES = C03_ops.LEAN_MODULES + ['C14', 'C11'] + emitlock_part.LEAN_MODULES + (C03_kernel.LEAN_MODULES if C03_kernel else [])
 
 MANIFEST = dict(
     text="Operator half, proved in Lean: once the downstream side is closed - by a terminal, by an external Unsubscribe, or from inside a callback - the source has been released before the closing call "
@@ -25,6 +27,13 @@ def check(ctx):
     o = C03_ops.parts(ctx)
     rows = R.run_kind(ctx, 'leak', shards=4)
     R.compare(ctx, rows, lambda d: (flag(d), d.get('leaked'), d.get('released')), 'C03 no goroutine of the library survives the subscription', nontrivial=lambda c, gd: True, recheck=2)
+    # hot constructs: a closed subscription of a shared / connected observable holds nothing upstream once the last one has
+    # left — live/total upstream subscriptions after every event of the C11 sequences, including the generations that
+    # follow a source terminal (an observer of an ended generation must still give its reference back)
+    for kind in ('share', 'conn'):
+        rows = R.run_kind(ctx, kind)
+        R.compare(ctx, rows, lambda d: (flag(d), d.get('up')), f'C03 release of the shared source after every event ({kind})',
+                  nontrivial=lambda c, gd: 'U' in c.split('ev=')[-1] or 'D' in c.split('ev=')[-1], max_report=2)
     el = emitlock_part.parts(ctx)
     rules, assumptions, searches, extra = [o['rule_part'], el['rule_part']], [], [el['search'], table_search('C14'), o.get('search')], {}
     if C03_kernel:
